@@ -746,6 +746,16 @@ def main(argv):
             "nested_if_through_else_if": lambda n: "program p\n" + "if (a) then\nx = 1\nelse if (b) then\n" * n + "x = 2\n" + "end if\n" * n + "end program p\n",
             "nested_where_through_elsewhere": lambda n: "program p\n" + "where (a > 0)\na = 1\nelsewhere\n" * n + "a = 2\n" + "end where\n" * n + "end program p\n",
             "nested_select_through_default": lambda n: "program p\n" + "select case (i)\ncase (1)\nx = 1\ncase default\n" * n + "x = 2\n" + "end select\n" * n + "end program p\n",
+            # the inner construct in the *first* (or a middle) block of the outer one, which has further blocks after it
+            "nested_select_first_block": lambda n: "program p\n" + "select case (i)\ncase (1)\n" * n + "x = 1\n" + "case default\ny = 2\nend select\n" * n + "end program p\n",
+            "nested_select_middle_block": lambda n: "program p\n" + "select case (i)\ncase (1)\nw = 0\ncase (2)\n" * n + "x = 1\n" + "case (3)\ny = 2\ncase default\nz = 3\nend select\n" * n + "end program p\n",
+            "nested_select_type_first_block": lambda n: "program p\n" + "select type (q)\ntype is (integer)\n" * n + "x = 1\n" + "class default\ny = 2\nend select\n" * n + "end program p\n",
+            "nested_if_first_block": lambda n: "program p\n" + "if (a) then\n" * n + "x = 1\n" + "else\ny = 2\nend if\n" * n + "end program p\n",
+            "nested_if_first_block_else_if": lambda n: "program p\n" + "if (a) then\n" * n + "x = 1\n" + "else if (b) then\ny = 2\nelse\nz = 3\nend if\n" * n + "end program p\n",
+            "nested_if_middle_block": lambda n: "program p\n" + "if (a) then\nw = 0\nelse if (b) then\n" * n + "x = 1\n" + "else\ny = 2\nend if\n" * n + "end program p\n",
+            "nested_where_first_block": lambda n: "program p\n" + "where (m)\n" * n + "a = 1\n" + "elsewhere\na = 2\nend where\n" * n + "end program p\n",
+            "nested_where_masked_elsewhere": lambda n: "program p\n" + "where (m)\na = 0\nelsewhere (m2)\n" * n + "a = 1\n" + "elsewhere\na = 2\nend where\n" * n + "end program p\n",
+            "nested_select_in_if_in_do": lambda n: "program p\n" + "do i = 1, 2\nif (a) then\nselect case (k)\ncase (1)\n" * n + "x = 1\n" + "case default\ny = 2\nend select\nelse\nz = 3\nend if\nend do\n" * n + "end program p\n",
             "nested_do_if_alternating": lambda n: "program p\n" + "do i = 1, 2\nif (a) then\n" * n + "x = 1\n" + "end if\nend do\n" * n + "end program p\n",
             "nested_block_data_units": lambda n: "".join("subroutine s%d\nx = 1\ncontains\nsubroutine t%d\ny = 2\nend subroutine t%d\nend subroutine s%d\n" % (k, k, k, k) for k in range(n)),
             "select": lambda n: "program p\n" + "".join("select case (i)\ncase (1)\n" for _ in range(n)) + "x = 1\n" + "end select\n" * n + "end program p\n",
